@@ -189,6 +189,20 @@ def c01(run, replay=None):
         t = task(('command', 'kr%d' % wi, '', 0), when=('bool', val))
         t["when_raw"] = raw
         cases.append(dict(files={"main.rh": dict(tasks=[INIT, t, task(('debug', lit(S(9))))])}, desc=dict(truthiness="literal when", literal=raw)))
+    # list-form conditions: every item is one condition, the items are AND-ed - whatever an item looks like inside
+    # (an `or` written with a tab, on two lines, without blanks around it; a conditional expression)
+    for wi, (raw, val) in enumerate([
+            ("[\"a == 'va' or\\ta == 'zz'\", \"a == 'nope'\"]", False),
+            ("[\"a == 'nope'\", \"a == 'va' or\\ta == 'zz'\"]", False),
+            ("\n    - |\n      a == 'va'\n      or a == 'zz'\n    - \"a == 'nope'\"", False),
+            ("[\"(a == 'va')or(a == 'zz')\", \"a == 'nope'\"]", False),
+            ("[\"a == 'va' or a == 'zz'\", \"a == 'nope'\"]", False),
+            ("[\"a == 'va' or a == 'zz'\", \"a == 'va'\"]", True),
+            ("[\"'yes' if a == 'va' else ''\", \"a == 'va'\"]", True),
+            ("[\"'' if a == 'va' else 'yes'\", \"a == 'va'\"]", False)]):
+        t = task(('command', 'kl%d' % wi, '', 0), when=('bool', val))
+        t["when_raw"] = raw
+        cases.append(dict(files={"main.rh": dict(tasks=[INIT, t, task(('debug', lit(S(9))))])}, desc=dict(truthiness="list-form when", literal=raw)))
     j = judge(run, cases, "order/once/stop")
     finish_cov(run, j,
                "random skeletons of 2-5 tasks over debug / looped debug / when / set_vars / command+register / copy / assert / include / vars / changed_when, "
@@ -451,7 +465,23 @@ def c17(run, replay=None):
     many["ignore"] = True
     cases.append(dict(files={"main.rh": dict(tasks=[INIT, many, task(('include', 'okf.rh')), probe("end")]), "deepf.rh": deepf, "failing.rh": failing, "okf.rh": okf},
                       desc=dict(tree="40 ignored failing includes, then a valid one")))
+    # an included file with NO tasks (`[]`): the include does nothing and the callers go on
+    emptyf = dict(tasks=[])
+    outerf = dict(tasks=[probe("outer.start"), task(('include', 'empty.rh')), probe("outer.end")])
+    cases.append(dict(files={"main.rh": dict(tasks=[INIT, task(('include', 'empty.rh')), probe("after.empty"), task(('include', 'outer.rh')), task(('command', 'kend', '', 0))]),
+                             "empty.rh": emptyf, "outer.rh": outerf}, desc=dict(tree="include of an empty file")))
     j = judge(run, cases, "include semantics")
+    # the script's arguments are the same inside an included file (any depth, looped) as in the main script
+    sc_main = ("#!/usr/bin/env rash\n- debug:\n    msg: \"main {{ rash.args | join(',') }}\"\n- include: ROOT/one.rh\n- include: ROOT/one.rh\n  loop: [x]\n"
+               "- debug:\n    msg: \"main {{ rash.args | join(',') }}\"\n")
+    sc_one = "#!/usr/bin/env rash\n- debug:\n    msg: \"one {{ rash.args | join(',') }}\"\n- include: ROOT/sub/two.rh\n"
+    sc_two = "#!/usr/bin/env rash\n- debug:\n    msg: \"two {{ rash.args | length }} {{ rash.args | join(',') }}\"\n"
+    o = E.run_impls([dict(files={"main.rh": dict(raw=sc_main), "one.rh": dict(raw=sc_one), "sub/two.rh": dict(raw=sc_two)}, argv=["--", "alpha", "be ta"])])[0]
+    want = "main alpha,be ta\n\n" + "one alpha,be ta\ntwo 2 alpha,be ta\n\n\n" * 2 + "main alpha,be ta\n"
+    got = [l for l in o["stdout"].split("\n") if l]
+    exp = [l for l in want.split("\n") if l]
+    if o["rc"] != 0 or got != exp:
+        run.violation("rash.args inside included files: expected %r, got %r (rc %r)" % (exp, got, o["rc"]), dict(main=sc_main, one=sc_one, two=sc_two, observed=o))
     finish_cov(run, j,
                "include chains of depth 1-3 through files in different directories (a third of the files, the main script included, reached through symbolic links), includes under loop / when / ignore_errors, every file printing rash.path, rash.dir and a caller variable at start and end, "
                "with a failing assert, an invalid task or a variable write injected at random positions of the included files; non-trivial = distinct trees with more than one event")
